@@ -11,7 +11,8 @@ from concurrent.futures import ThreadPoolExecutor
 from core import run_tlc, MachineryError, NCPU
 from absval import Abs, cps, NotAbstractable
 
-TAGS = ['a', 'b', 'c']
+# tag names that begin like a keyword are ordinary names (notes, order, android)
+TAGS = ['a', 'b', 'c', 'notes', 'order', 'android']
 OPS = ['==', '!=', '<', '<=', '>', '>=']
 
 
@@ -126,7 +127,8 @@ def make_case(hs, pool, rng, simple=False):
     for i in range(nrows):
         r = {}
         if rng.random() < 0.9:
-            r['id'] = hs.Ref('r%d' % (i + 1))
+            # an id is a Ref; it may carry a display name, which plays no part in "the row whose id matches"
+            r['id'] = hs.Ref('r%d' % (i + 1)) if rng.random() < 0.6 else hs.Ref('r%d' % (i + 1), 'Row %d' % (i + 1))
         for tg in TAGS:
             u = rng.random()
             if u < 0.12:
@@ -134,7 +136,8 @@ def make_case(hs, pool, rng, simple=False):
             fam = fams[tg] if u < 0.88 else rng.choice(list(pool))
             r[tg] = rng.choice(pool[fam])
         if rng.random() < 0.5:
-            r['ref'] = hs.Ref('r%d' % rng.randint(1, nrows + 1))
+            k = rng.randint(1, nrows + 1)
+            r['ref'] = hs.Ref('r%d' % k) if rng.random() < 0.7 else hs.Ref('r%d' % k, rng.choice(['Row %d' % k, 'other']))
         rows.append(r)
 
     def path():
@@ -255,6 +258,16 @@ def fixed_cases(hs):
               'a == 1 or b == true', 'a == true or b == 1', 'a == 5.0 or b == 5m or c == 5kg',
               'a == 5 or b == 5 or b == 5m', 'a == "5" or b == 5', 'a != 5 and b != 5kg']:
         out.append((f, rows))
+    rows = [{'id': R('r1'), 'notes': 'x', 'order': 1.0, 'android': hs.MARKER}, {'id': R('r2'), 'hing': hs.MARKER},
+            {'id': R('r3'), 'notes': 'y', 'der': 2.0}]
+    out += [(f, rows) for f in ['notes', 'notes == "x"', 'not notes', 'order', 'order == 1', 'android', 'id and notes',
+                                'id and android', 'id or order', 'nothing', 'notes and order', 'not order', 'not  android',
+                                '(notes)', 'notes or android']]
+    rows = [{'id': R('s1', 'Site One'), 'a': 'Chicago'}, {'id': R('s2'), 'a': 'Boston'},
+            {'id': R('e1'), 'ref': R('s1'), 'b': 1.0}, {'id': R('e2'), 'ref': R('s1', 'Site One'), 'b': 2.0},
+            {'id': R('e3'), 'ref': R('s2', 'shown otherwise'), 'b': 3.0}, {'id': R('e4'), 'ref': R('nobody'), 'b': 4.0}]
+    out += [('ref->a == "Chicago"', rows), ('not ref->a', rows), ('ref->a', rows), ('ref->a == "Boston" or b == 1', rows),
+            ('b and ref->a != "Chicago"', rows)]
     rows = [{'id': R('r1'), 'a': 'x', 'b': hs.Uri('x')}, {'id': R('r2'), 'a': hs.Uri('x'), 'b': 'x'},
             {'id': R('r3'), 'a': 'y', 'b': 'x'}]
     out += [('a == "x" or b == `x`', rows), ('a == `x` or b == "x"', rows), ('a == "x" and b == `x`', rows)]
